@@ -65,6 +65,9 @@ def build_jobs(tier):
         texts += F.f_mem((3,), deltas=[0, 32], ops=("SSTORE", "SLOAD"))
         texts += F.f_mem((2,), deltas=[0, 32], mixed=True)
         texts += F.f_exh(3)
+    # MSIZE observes memory expansion: removing a dead load or hash before it is visible
+    texts += ["PUSH ffff MLOAD POP MSIZE", "MSIZE PUSH ffff MLOAD POP MSIZE", "DUP1 MLOAD POP MSIZE", "PUSH 20 DUP2 KECCAK256 POP MSIZE",
+              "MSIZE DUP2 MLOAD ADD", "DUP2 DUP2 MSTORE MSIZE", "MSIZE MSIZE SUB"]
     seen = set()
     uniq = []
     for t in texts:
@@ -165,7 +168,8 @@ def main():
     }
     rep.assumptions = ["every memory offset/length used by either block is < 2^32", "enough stack, no gas exhaustion",
                        "ADDRESS/ORIGIN/CALLER/COINBASE < 2^160; BALANCE(ADDRESS)=SELFBALANCE",
-                       "blocks containing PC/MSIZE are not comparable and are skipped (counted as unsupported)"]
+                       "MSIZE is modelled as the highest touched address rounded up to a word; blocks containing PC are not "
+                       "comparable and are skipped (counted as unsupported)"]
     sys.exit(rep.finish())
 
 
